@@ -286,7 +286,8 @@ SMALL = {
     LIST: [lit_list([1, 2]), lit_list([3])],
 }
 
-FULL_INTS = [0, 1, 2, 7, 255, 256, 65535, 65536, 2**31 - 1, 2**31, 2**32, 2**63 - 1, 2**63, 2**64 - 1, -1, -2**31, -2**31 - 1]
+# boundaries of the 32-bit marshal form, of u64, and of the 15-bit digits of the marshal long form (2**45, 2**60)
+FULL_INTS = [0, 1, 2, 7, 255, 256, 65535, 65536, 2**31 - 1, 2**31, 2**32, 2**45 - 1, 2**45, 2**60 - 1, 2**60, 2**63 - 1, 2**63, 2**64 - 1, -1, -2**31, -2**31 - 1]
 FULL_FLOATS = ["0.0", "-0.0", "1.5", "-2.5", "1e308", "5e-324"]
 
 
